@@ -12,13 +12,26 @@ def main(argv):
         return 2
     prop = argv[0].upper()
     seed = int(os.environ.get("VERIF_SEED", "0") or 0)
-    mod = importlib.import_module(f"harness.checks.{prop.lower()}")
+    try:
+        mod = importlib.import_module(f"harness.checks.{prop.lower()}")
+    except ModuleNotFoundError as ex:
+        print(f"MACHINERY-FAILURE property={prop}: {ex}", file=sys.stderr)
+        return 2
     if argv[1] == "--replay":
-        return mod.replay(argv[2])
+        try:
+            return mod.replay(argv[2])
+        except Exception as ex:  # a broken replay is a machinery failure (2), never a verdict
+            import traceback
+
+            traceback.print_exc()
+            print(f"MACHINERY-FAILURE property={prop}: replay raised {type(ex).__name__}", file=sys.stderr)
+            return 2
     tier = argv[1]
     if os.environ.get("VERIF_TIER") in ("quick", "thorough") and tier not in ("quick", "thorough"):
         tier = os.environ["VERIF_TIER"]
-    assert tier in ("quick", "thorough"), tier
+    if tier not in ("quick", "thorough"):
+        print(f"MACHINERY-FAILURE property={prop}: unknown tier {tier!r}", file=sys.stderr)
+        return 2
     return core.run_check(prop, lambda ctx: mod.run(ctx), tier, seed)
 
 
